@@ -118,3 +118,12 @@ claim(
     TB, "call-graph reachability + consumer classification of unordered iterations (def-use chains, loop-body effect analysis)",
     "DESIGN.md §2 C15",
 )
+claim(
+    "C12", "other",
+    "Retain/release discipline as sibling agreement on MIR: all Return* arms of the VM dispatch perform the same release calls; arms "
+    "that allocate closures register them in the frame's release list; the compiler's clone/release/close inserters and the VM's "
+    "clone/release walkers handle the same Type variants; recursive Type predicates steering reference counting quantify every "
+    "aggregate arm with `any`. Boundedness over time is not decided.",
+    TB, "sibling cross-check of match arms and of paired recursive walkers (enum coverage sets, per-arm callee sets)",
+    "DESIGN.md §2 C12",
+)
